@@ -277,9 +277,43 @@ func cmdSoups(args []string) {
 	r := rand.New(rand.NewSource(int64(seed)*99991 + 7))
 	lw := newLineWriter(args[2])
 	starts := [][]string{{}, {"send", "[", "USD", "5", "]", "(", "source", "="}, {"vars", "{", "account", "$v"}, {"set_tx_meta", "("}, {"send", "[", "USD", "*", "]", "(", "source", "=", "@a", "destination", "=", "{"}}
+	starts = append(starts, []string{"send", "[", "USD", "5", "]", "(", "source", "=", "{", "@world"}, []string{"send", "[", "USD", "5", "]", "(", "source", "=", "{", "@a", "allowing", "unbounded", "overdraft"},
+		[]string{"send", "[", "USD", "5", "]", "(", "source", "=", "{", "50%", "from", "@a", "50.00000000000000000001%", "from", "@b", "}"},
+		[]string{"send", "[", "USD", "5", "]", "(", "source", "=", "@a", "destination", "=", "{", "99.99999999999999999%", "to", "@a", "}", ")"})
+	special := func(i int) []string {
+		switch i {
+		case 0, 1: // a long chain of + / - (analysis must stay linear)
+			t := []string{"vars", "{", "number", "$n", "}", "set_tx_meta", "(", "\"total\"", ",", "$n"}
+			for j := 0; j < 40+20*i; j++ {
+				t = append(t, pick(r, []string{"+", "-"}), pick(r, []string{"1", "$n"}))
+			}
+			return append(t, ")")
+		case 2: // deep nesting
+			t := []string{"send", "[", "USD", "5", "]", "(", "source", "="}
+			for j := 0; j < 150; j++ {
+				t = append(t, "{")
+			}
+			t = append(t, "@a")
+			for j := 0; j < 150; j++ {
+				t = append(t, "}")
+			}
+			return append(t, "destination", "=", "@b", ")")
+		case 3: // a long monetary chain in a cap
+			t := []string{"send", "[", "USD", "5", "]", "(", "source", "=", "max", "[", "USD", "1", "]"}
+			for j := 0; j < 35; j++ {
+				t = append(t, "+", "[", "USD", "1", "]")
+			}
+			return append(t, "from", "@a", "destination", "=", "@b", ")")
+		}
+		return nil
+	}
 	for i := 0; i < n; i++ {
 		toks := append([]string{}, pick(r, starts)...)
 		k := 1 + r.Intn(14)
+		if sp := special(i); sp != nil {
+			toks = sp
+			k = 0
+		}
 		for j := 0; j < k; j++ {
 			toks = append(toks, pick(r, soupAlphabet))
 		}
